@@ -18,6 +18,8 @@
                                               duplicate_rejected, late_answer_rejected, every_hop_keyed_with_selected,
                                               no_outsider_holds_hop_keys (all histories)
     "never changes an already established hop" → step_hops_append_only, hops_append_only, answer_touches_one_circuit
+                                              (originator side); joined_ids_disjoint, joined_keys_stable,
+                                              relay_route_stable, joined_state_stable (responder / relay side)
 -/
 import Ipv8.C08.Lemmas
 
@@ -421,5 +423,112 @@ example : (honestRun Free 77 exNode [(20, [3, 4, 4], ⟨11, 556, none⟩), (21, 
     = [2, 4] := by decide
 example : ((honestRun Free 77 exNode [(20, [3, 4, 4], ⟨11, 556, none⟩), (21, [], ⟨12, 557, none⟩)]).1.circuits 77).map
     (fun c => (c.hops.map Hop.peer, c.unverified, c.retry)) = some ([2, 4], none, none) := by decide
+
+/-! ## 6. the joined side: keys and routes of established hops never change
+
+`FreshTo` is the only side condition: the relay's `_generate_circuit_id` result does not collide with one of its own
+exit sockets / relay routes (the code only avoids collisions with `circuits`; a 2⁻³² event, recorded as an assumption). -/
+
+/-- a circuit id is never an exit socket and a relay route at the same time (on_create refuses ids in use; the relay
+    branch of on_created removes the exit socket it converts) -/
+theorem joined_ids_disjoint (C : Crypto Tag Sess Blob) (n : Node Sess) (e : Ev Tag Blob)
+    (hd : Disjoint n) (hf : FreshTo n e) : Disjoint (step C n e).1 := by
+  intro cid
+  rcases step_joined C n e with ⟨h1, h2⟩ | ⟨c1, h, he, hr, _, h1, h2⟩ |
+    ⟨cid', ident, key, auth, cands, env, req, ex, rfl, hcr, hex, h1, h2⟩
+  · rw [h1, h2]; exact hd cid
+  · rw [h1, h2]
+    by_cases hc : cid = c1
+    · subst hc; exact Or.inr hr
+    · rw [upd_other _ _ hc]; exact hd cid
+  · rw [h1, h2]
+    by_cases hc : cid = req.fromCid
+    · left; rw [hc, upd_same]
+    · rw [upd_other _ _ hc, upd_other _ _ hc]
+      by_cases ht : cid = req.toCid
+      · left
+        have hne : req.toCid ≠ req.fromCid := fun h => hc (ht.trans h)
+        rw [ht]; exact (hf req hcr hne).1
+      · rw [upd_other _ _ ht]; exact hd cid
+
+/-- responder / relay side of an established hop: whatever event follows (replayed CREATE after the created-cache
+    expired, replayed EXTEND, late or forged CREATED, timeouts …) the session keys held for circuit id `cid` stay the same -/
+theorem joined_keys_stable (C : Crypto Tag Sess Blob) (n : Node Sess) (e : Ev Tag Blob) (cid : Nat) (k : Sess)
+    (hf : FreshTo n e) (hk : entryKeys n cid = some k) :
+    entryKeys (step C n e).1 cid = some k := by
+  unfold entryKeys at hk ⊢
+  rcases step_joined C n e with ⟨h1, h2⟩ | ⟨c1, h, he, hr, _, h1, h2⟩ |
+    ⟨cid', ident, key, auth, cands, env, req, ex, rfl, hcr, hex, h1, h2⟩
+  · rw [h1, h2]; exact hk
+  · rw [h1, h2]
+    by_cases hc : cid = c1
+    · subst hc; rw [he, hr] at hk; cases hk
+    · rw [upd_other _ _ hc]; exact hk
+  · rw [h1, h2]
+    by_cases hc : cid = req.fromCid
+    · subst hc
+      rw [hex] at hk
+      simp only [upd_same]
+      simpa using hk
+    · rw [upd_other _ _ hc, upd_other _ _ hc]
+      by_cases ht : cid = req.toCid
+      · exfalso
+        have hne : req.toCid ≠ req.fromCid := fun h => hc (ht.trans h)
+        obtain ⟨f1, f2⟩ := hf req hcr hne
+        rw [ht, f1, f2] at hk; cases hk
+      · rw [upd_other _ _ ht]; exact hk
+
+/-- a relay route (target circuit id, next peer, keys, direction) of an established hop is never re-pointed — in particular
+    not by the late CREATED of an earlier extend attempt -/
+theorem relay_route_stable (C : Crypto Tag Sess Blob) (n : Node Sess) (e : Ev Tag Blob) (cid : Nat)
+    (rl : Relay Sess) (hd : Disjoint n) (hf : FreshTo n e) (hr : n.relays cid = some rl) :
+    (step C n e).1.relays cid = some rl := by
+  rcases step_joined C n e with ⟨_, h2⟩ | ⟨c1, h, _, _, _, _, h2⟩ |
+    ⟨cid', ident, key, auth, cands, env, req, ex, rfl, hcr, hex, _, h2⟩
+  · rw [h2]; exact hr
+  · rw [h2]; exact hr
+  · rw [h2]
+    have hc : cid ≠ req.fromCid := by
+      intro hc
+      rcases hd cid with h | h
+      · rw [hc, hex] at h; cases h
+      · rw [hr] at h; cases h
+    rw [upd_other _ _ hc]
+    have ht : cid ≠ req.toCid := by
+      intro ht
+      have hne : req.toCid ≠ req.fromCid := fun h => hc (ht.trans h)
+      have := (hf req hcr hne).2
+      rw [← ht, hr] at this; cases this
+    rw [upd_other _ _ ht]; exact hr
+
+/-- all histories -/
+theorem joined_state_stable (C : Crypto Tag Sess Blob) (evs : List (Ev Tag Blob)) (n : Node Sess)
+    (hd : Disjoint n) (hf : RunFresh C n evs) :
+    Disjoint (run C n evs) ∧
+    (∀ cid k, entryKeys n cid = some k → entryKeys (run C n evs) cid = some k) ∧
+    (∀ cid rl, n.relays cid = some rl → (run C n evs).relays cid = some rl) := by
+  induction evs generalizing n with
+  | nil => exact ⟨hd, fun _ _ h => h, fun _ _ h => h⟩
+  | cons e es ih =>
+    obtain ⟨hf1, hf2⟩ := hf
+    obtain ⟨i1, i2, i3⟩ := ih (step C n e).1 (joined_ids_disjoint C n e hd hf1) hf2
+    exact ⟨i1, fun cid k h => i2 cid k (joined_keys_stable C n e cid k hf1 h),
+      fun cid rl h => i3 cid rl (relay_route_stable C n e cid rl hd hf1 h)⟩
+
+/-- non-vacuity: exit node 2 joined circuit 77; a replayed CREATE (other ephemeral 40, after the created cache expired)
+    leaves the stored keys as they were -/
+example :
+    let q := (step Free (Node.init 2 true true) (.create 77 555 1 (some ⟨10, 0⟩) 20 [3, 4, 4])).1
+    entryKeys (run Free q [.createdExpire 77, .create 77 556 1 (some ⟨40, 0⟩) 21 []]) 77 = entryKeys q 77 ∧
+      entryKeys q 77 = some [dh 10 20, dh 2 10] := by decide
+
+/-- non-vacuity: relay 2 routed circuit 77 to peer 4 (id 88); the late CREATED of an earlier attempt (number 998, to peer 3)
+    does not re-point the route -/
+example :
+    let r := (step Free (Node.init 2 true true) (.create 77 555 1 (some ⟨10, 0⟩) 20 [3, 4, 4])).1
+    let r1 := (run Free r [.extend 77 556 3 (some ⟨11, 0⟩) false 87 998, .extend 77 557 4 (some ⟨12, 0⟩) false 88 999,
+      .created 88 999 (some ⟨21, 0⟩) (.junk 5) (.junk 6) ⟨0, 0, none⟩])
+    ((step Free r1 (.created 87 998 (some ⟨22, 0⟩) (.junk 7) (.junk 8) ⟨0, 0, none⟩)).1.relays 77).map
+      (fun rl => (rl.target, rl.peer)) = some (88, 4) := by decide
 
 end Ipv8.C08
